@@ -572,9 +572,10 @@ META = {
               "exact comparison of every transport call and every hashed byte string, every engine class, both roles."),
     "note": ("Assumed as hypotheses (not proved, not axioms): the curve library's DH law (CurveLaws, proved for the toy "
              "curves), collision-freeness of the hash on the compared inputs, unforgeability of the host-key signature. "
-             "gex agreement theorem starts from equal stored sizes (gex_request_agrees shows the server stores a "
-             "consistent in-range request unchanged, which paramiko's client always sends; a foreign client whose "
-             "request the server clamps would see a different hash — outside this property). The negotiation that "
+             "gex: gex_full_honest covers the whole exchange from paramiko's own request (1024, 2048, 8192); "
+             "gex_honest/gex_request_agrees cover any consistent in-range request, which the server stores unchanged; a "
+             "foreign client whose request the server CLAMPS would hash other sizes than the server (interoperability "
+             "remark, outside this property). The negotiation that "
              "selects engine/host-key algorithm is C05's; _verify_key's internals are C07's. Trusted: Lean kernel + 3 "
              "axioms, harness, cryptography/nacl/hashlib."),
     "technique": "Lean 4 proof over an effect-trace model + differential correspondence + end-to-end MITM oracle",
